@@ -11,6 +11,7 @@ SAN="-fsanitize=address"
 export ASAN_OPTIONS=detect_leaks=0   # (only the C20 demonstrations are about leaks)
 case "$(basename $sd)" in C20-*) export ASAN_OPTIONS=detect_leaks=1;; esac
 case "$(basename $sd)" in C18-*) SAN="-fsanitize=thread -O1";; C04-*) SAN="-fsanitize=address,undefined -fno-sanitize-recover=all";; esac
+[ -f "$sd/build.flags" ] && SAN="$(cat "$sd/build.flags")"   # a demonstration that states its own build flags
 demo_build() { gcc $SAN -g -D_GNU_SOURCE -w -I include -I lib -o "$1" "$sd/demo.c" lib/*.c -lpthread 2>/dev/null; }
 demo_run() {  # $1 = binary name; a shell demonstration builds the tool itself from the current directory
   if [ -f "$sd/demo.sh" ]; then mkdir -p "$w/_seeded"; cp "$sd/demo.sh" "$w/_seeded/demo.sh"; (timeout 300 bash "$w/_seeded/demo.sh" >/dev/null 2>&1); else demo_build "$1" && (cd /tmp && timeout 300 "$1" >/dev/null 2>&1); fi; }
